@@ -360,8 +360,17 @@ def run(chk):
         msg = oracle_conc(r)
         if msg:
             violations.append(("cuidconc", i, msg, None))
-    mismatches, counts = coq_eval_all({"sid": (sid, 200), "cookie": (data["cookie"], 300), "rid": (rid, 30),
-                                       "cuid": (cuid, 2000 if thorough else 250), "cuidconc": (conc, 1)})
+    try:
+        mismatches, counts = coq_eval_all({"sid": (sid, 200), "cookie": (data["cookie"], 300), "rid": (rid, 30),
+                                           "cuid": (cuid, 2000 if thorough else 250), "cuidconc": (conc, 1)})
+    except vlib.Machinery as e:
+        if proof_ok:
+            raise
+        # the development does not build against this tree (e.g. the translator
+        # rejects it): the model cannot be evaluated; the oracles still judge
+        # every observation of the real code
+        mismatches, counts = {k: [] for k in ("sid", "cookie", "rid", "cuid", "cuidconc")}, {}
+        chk.coverage["model_not_evaluable"] = str(e)[-600:]
     ref_bad = [i for i, r in enumerate(rid) if not rid_reference(r)]
     mismatches["rid"] = sorted(set(mismatches["rid"]) | set(ref_bad))
 
